@@ -681,6 +681,15 @@ def fam_crash_core(tier="quick"):
                 n += 1
         L.append(" | ".join([f"crOK{n}"] + parts[1:]))
         n += 1
+    # failures raised by loom's own assertions while a guard of the failing thread is alive: an access to a
+    # cell from inside another access of the same thread (write in read, read in write, write in write) must
+    # fail the run by an ordinary panic -- the guard's destructor runs during the unwinding -- and the clean
+    # program after it must run as if nothing had happened
+    for k in (0, 1, 2):
+        L.append(prog_line(f"crU{n}", ["U", "A0"], [["cw 0", f"cn 0 {k}", "cr 0"]])); n += 1
+        L.append(prog_line(f"crU{n}", ["U", "A0"], [["sp 1", "ld 1 sc", f"cn 0 {k}", "jn 1"], ["st 1 1 sc"]])); n += 1
+        L.append(prog_line(f"crU{n}", ["U", "A0"], [["sp 1", "st 1 1 sc", "jn 1"], ["ld 1 sc", f"cn 0 {k}"]])); n += 1
+        L.append(prog_line(f"crOK{n}", ["U", "A0"], [["cw 0", "cn 0 3", "cr 0"]])); n += 1
     return L
 
 
@@ -707,6 +716,7 @@ LITMUS = {
     # coherence under interference: a thread's two stores are mo-ordered; another thread that has a store of
     # its own (or has read one) then reads the FIRST of them, which moves that store later in loom's
     # modification-order clocks; the first thread must still not read its own older store
+    "ISA2": [[("W", 0, 1), ("W", 1, 1)], [("R", 1), ("W", 2, 1)], [("R", 2), ("R", 0)]],
     "CoWR2": [[("W", 0, 2), ("W", 0, 3), ("R", 0)], [("W", 0, 1), ("R", 0)]],
     "CoWR2r": [[("W", 0, 2), ("W", 0, 3), ("R", 0)], [("W", 0, 1), ("R", 0), ("R", 0)]],
     "CoWR2u": [[("W", 0, 2), ("U", 0, 8), ("R", 0)], [("W", 0, 1), ("R", 0)]],
@@ -796,6 +806,12 @@ def fam_litmus_core(tier="quick"):
                 fl[t] = f
             L.append(litmus_line(f"lt{name}F{n}", shape, rl, fl))
             n += 1
+    # a relay thread whose ONE fence both acquires (what the relaxed load before it read from a release
+    # store) and releases (through the relaxed store after it): only ar / sc fences do both
+    isa = LITMUS["ISA2"]
+    for f in ("ar", "sc", "acq", "rel"):
+        L.append(litmus_line(f"ltISA2R{f}", isa, ["rlx", "rel", "rlx", "rlx", "acq", "rlx"], [None, f, None]))
+    L.append(litmus_line("ltISA2Rff", isa, ["rlx", "rlx", "rlx", "rlx", "rlx", "rlx"], ["rel", "ar", "acq"]))
     return L
 
 
